@@ -131,7 +131,7 @@ void Monitor::set()
   LeaveCriticalSection((CRITICAL_SECTION*)mdata);
   WakeConditionVariable((CONDITION_VARIABLE*)cdata);
 #else
-  VERIFY(pthread_mutex_unlock((pthread_mutex_t*)mdata) == 0);
   VERIFY(pthread_cond_signal((pthread_cond_t*)cdata) == 0);
+  VERIFY(pthread_mutex_unlock((pthread_mutex_t*)mdata) == 0);
 #endif
 }
